@@ -374,6 +374,39 @@ Definition new_bytes (fuel : nat) (T : newtype) (init : pyval) : res mem :=
   | init' => fill fuel (new_target T) 0 init' m
   end).
 
+(* direct_newp 3905-3950: the owning object = (its block, the `length` slot of CDataObject_own_length).
+   The slot exists only when dataoffset is that of own_length: a var-sized struct (3932:
+   length = datasize) or `T[]` (3945: length = explicitlength). *)
+Definition own_length (T : newtype) (n : Z) : option Z :=
+  match T with
+  | NewPtr t => if agg_var t then Some n else None
+  | NewArr item len => if len <? 0 then Some (n / lsize item) else None
+  end.
+Definition new_object (fuel : nat) (T : newtype) (init : pyval) : res (mem * option Z) :=
+  bind (alloc_size fuel T init) (fun n =>
+  bind (new_bytes fuel T init) (fun m => Ok (m, own_length T n))).
+
+(* ffi.sizeof(p[0]) for p = ffi.new("struct T *", ...) and ffi.sizeof(p) for an array:
+   direct_sizeof_cdata 6651 with _cdata_var_byte_size 2197 and get_array_length 1471 *)
+Definition sizeof_cdata (T : newtype) (slot : option Z) : Z :=
+  match T with
+  | NewArr item len =>
+      (if len <? 0 then match slot with Some l => l | None => len end else len) * lsize item
+  | NewPtr t =>
+      match (if agg_var t then slot else None) with      (* _cdata_var_byte_size, else -1 *)
+      | Some l => if l <? 0 then lsize t else l
+      | None => lsize t
+      end
+  end.
+
+(* the positions (in ct_extra) of the fields a positional initialiser fills, in order:
+   those without BF_IGNORE_IN_CTOR *)
+Fixpoint ctor_keys (b : Z) (fs : list lfield) : list Z :=
+  match fs with
+  | [] => []
+  | f :: r => if ignore_in_ctor f then ctor_keys (b + 1) r else b :: ctor_keys (b + 1) r
+  end.
+
 (* q = ffi.new(T) [for a var-sized struct: a block of the size the initialiser needs]; q[0] = init *)
 Definition assign_bytes (fuel : nat) (T : newtype) (init : pyval) (n : Z) : res mem :=
   fill fuel (new_target T) 0 init (zeros n).
